@@ -74,9 +74,13 @@ CHECKS = [
 ]
 
 def bchk(pid, text, note, design_ref):
-    d = chk(pid, "exploration", text, note, "runtime contracts over an abstract view of the store, small-scope enumeration (bounded stand-in for the "
-            "contract-based technique; SQL statements are outside the verifier's reach)", design_ref)
-    d["engine"] = "bounded"
+    tech = ("runtime contracts over an abstract view of the store, small-scope enumeration (bounded stand-in for the contract-based technique; SQL "
+            "statements are outside the verifier's reach)")
+    if pid in PYVC_PROPS:
+        tech = ("mixed: contract-based deductive verification (ast -> VCs -> z3/cvc5) of the Python-level functions named in level_note, under trusted "
+                "contracts of the SQL / library primitives; the end-to-end statement by " + tech)
+    d = chk(pid, "exploration", text, note, tech, design_ref)
+    d["engine"] = "bounded" if pid not in PYVC_PROPS else "pyvc+bounded"
     return d
 
 
@@ -103,18 +107,10 @@ CHECKS += [
          "(hash class = shape class) are not stated: they would need collision freedom, which D6 refutes.",
          "Bounded exploration on real sqlite; oracle = canonical shapes from the abstract view. One known finding (hash input without separator, D6) is "
          "listed in KNOWN_FINDINGS.txt and printed as KNOWN-FINDING.", "DESIGN.md 4/C09"),
-    bchk("C10", "BOUNDED, exhaustive in its stated bound (never counted as proved). Whole-view postcondition of ingestion - nodes == first occurrence per "
-         "span id, association rows == the parent links of exactly those spans - over every stream of length <= 4 over a 6-span pool with a duplicated "
-         "id x 4 batch sizes, and over every two-run split (duplicates across runs on a file-backed store).",
-         "Bounded exploration on real sqlite for the end-to-end statement. Additionally PROVED for all streams and every batch size (contracts/c10.py, 111 "
-         "clauses, no bound), under trusted contracts of three DB primitives over a ghost store (validated on real sqlite by the bounded harness): "
-         "IngestData.load_to_data_holder - the property's own statement: afterwards the store's ids are the ids stored before plus the ids of the stream; "
-         "every id that is new is represented by a row with the content of its FIRST occurrence in the stream; rows stored before are untouched; the "
-         "association rows are those stored before plus exactly the parent links of the new first occurrences; nothing is left pending; the store is "
-         "well-formed. It rests on: _save_data / save_data (specified on the virtual store = stored rows + first occurrences of the pending batch), "
-         "SQLDataHolder.__exit__ (flush on leaving the with block), and a flush (commit_batched_unique_data_to_database -> commit_batched_data_to_database "
-         "-> check_and_filter_non_unique_nodes_and_associations) that never fails on a well-formed store and stores exactly the first occurrences.",
-         "DESIGN.md 4/C10"),
+    chk("C10", "proof",
+        'Proved for all span streams, duplicate placements, batch sizes and initial (well-formed) stores, on a ghost model of the two tables and under trusted contracts of three DB primitives (every enrolled obligation generated from the current source is discharged): after IngestData.load_to_data_holder the store holds the rows it held before, untouched, plus exactly one row per new span id with the content of the FIRST occurrence in the stream, the association rows it held plus exactly the parent links of those first occurrences, nothing pending, well-formed. BOUNDED complement on real sqlite (not counted as proved): Whole-view postcondition of ingestion - nodes == first occurrence per span id, association rows == the parent links of exactly those spans - over every stream of length <= 4 over a 6-span pool with a duplicated id x 4 batch sizes, and over every two-run split (duplicates across runs on a file-backed store).',
+        "Trusted: the three DB primitives over the ghost store (batch_insert_node_models all-or-nothing with IntegrityError iff an id repeats or is stored, batch_insert_node_associations, get_event_ids_existing_in_db) - what the bounded harness validates on real sqlite -, a declared exception of a callee leaves the state unchanged where stated, DataHolder.__enter__/__exit__ of the base class, object freshness, pyvc, z3/cvc5. PROVED for all streams and every batch size (contracts/c10.py, 111 clauses, no bound), under trusted contracts of three DB primitives over a ghost store (validated on real sqlite by the bounded harness): IngestData.load_to_data_holder - the property's own statement: afterwards the store's ids are the ids stored before plus the ids of the stream; every id that is new is represented by a row with the content of its FIRST occurrence in the stream; rows stored before are untouched; the association rows are those stored before plus exactly the parent links of the new first occurrences; nothing is left pending; the store is well-formed. It rests on: _save_data / save_data (specified on the virtual store = stored rows + first occurrences of the pending batch), SQLDataHolder.__exit__ (flush on leaving the with block), and a flush (commit_batched_unique_data_to_database -> commit_batched_data_to_database -> check_and_filter_non_unique_nodes_and_associations) that never fails on a well-formed store and stores exactly the first occurrences.",
+        "contract-based deductive verification (ast -> VCs -> z3/cvc5) on a ghost store + runtime contracts over an abstract view of the real store (bounded complement)", 'DESIGN.md 4/C10'),
     bchk("C11", "BOUNDED (never counted as proved). Whole-view postconditions of remove_inconsistent_jobs, remove_jobs_outside_of_time_window and "
          "update_job_names_by_root_span (exactly the broken / outside traces removed, every other row unchanged, root name everywhere, well-formedness "
          "preserved, ValueError iff the buffered window is empty) and the differential clause on PV sequences, over all pairs (sampled triples) of 17 "
